@@ -263,7 +263,8 @@ def check_predict_tracking(chk, rep, repo):
         base = facts(w.loops[li.loops[-1]].guards) if li.loops else ()
         extra = [f for f in facts(marks[0].guards) if f not in base]
         defined = (("cmp", "<", ("const", -1), after), ("cmp", "<=", ("const", 0), after),
-                   ("cmp", "!=", *sorted([("const", -1), after], key=repr)), ("cmp", "!=", ("const", -1), after))
+                   ("cmp", "!=", *sorted([("const", -1), after], key=repr)), ("cmp", "!=", ("const", -1), after),
+                   ("cmp", "!=", *sorted([("K", "NIL"), after], key=repr)), ("cmp", "<", ("K", "NIL"), after))
         def seen_once(f):
             """`if c not in seen: seen.add(c); mark(c)` with `seen` a set created in this call: marking (which only sets
             flags, rule P2) is skipped exactly for conquerors it was already applied to."""
